@@ -955,10 +955,13 @@ class FunctionPlugin(PrimitivePlugin):
         handled_names.update(static_params.keys())
         literal_map = getattr(ctx, "_call_input_param_literals", None)
         if isinstance(literal_map, dict):
-            for pname in call_param_names:
-                if pname in handled_names:
+            # Iterate the (insertion-ordered) literal map, not the set of names: the
+            # order of the appended function/graph inputs must not depend on the
+            # string hash seed.
+            for pname in literal_map:
+                if pname not in call_param_names:
                     continue
-                if pname not in literal_map:
+                if pname in handled_names:
                     continue
                 accepts_param = False
                 target_fn = callee
